@@ -384,7 +384,54 @@ func init() {
 	})
 }
 
-func c11Lens(c *Ctx, g *prng.Rng, srcLen, nstar, bound int) []int {
+// seqBoundaries walks an encoded block and returns the output offsets at which the parts of its
+// sequences end (length bytes, literals, offset, match-length bytes).  The compressors test the
+// room left in dst once per part: destination lengths equal to these offsets (and one less) are
+// the lengths at which such a test is decided by a single byte.
+func seqBoundaries(blk []byte, maxSeq int) []int {
+	var out []int
+	p, seq := 0, 0
+	for p < len(blk) {
+		tok := blk[p]
+		p++
+		ll := int(tok >> 4)
+		if ll == 15 {
+			for p < len(blk) {
+				v := int(blk[p])
+				p++
+				ll += v
+				if v != 255 {
+					break
+				}
+			}
+		}
+		out = append(out, p)
+		p += ll
+		out = append(out, p)
+		if p >= len(blk) {
+			break
+		}
+		p += 2
+		out = append(out, p)
+		if tok&15 == 15 {
+			for p < len(blk) {
+				v := blk[p]
+				p++
+				if v != 255 {
+					break
+				}
+			}
+			out = append(out, p)
+		}
+		if seq++; seq == maxSeq {
+			// jump to the tail: the last parts matter too (end-of-block rules)
+			break
+		}
+	}
+	return out
+}
+
+func c11Lens(c *Ctx, g *prng.Rng, srcLen, nstar, bound int, encoded []byte) []int {
 	fullSweep := 400
 	if c.Tier == "thorough" {
 		fullSweep = 3000
@@ -401,6 +448,13 @@ func c11Lens(c *Ctx, g *prng.Rng, srcLen, nstar, bound int) []int {
 		k := 24
 		if c.Tier == "thorough" {
 			k = 100
+		}
+		maxSeq := 10
+		if srcLen <= 16384 || c.Tier == "thorough" {
+			maxSeq = 40
+		}
+		for _, off := range seqBoundaries(encoded, maxSeq) {
+			set[off-1], set[off] = true, true
 		}
 		for j := 0; j < k; j++ {
 			if nstar > 16 && g.Bool() {
@@ -458,7 +512,7 @@ func c11Case(c *Ctx, i int64) {
 				map[string]interface{}{"entry": e.name, "depth": e.depth, "src": hexs(src)})
 			continue
 		}
-		lens := c11Lens(c, g, len(src), nstar, bound)
+		lens := c11Lens(c, g, len(src), nstar, bound, full[:nstar])
 		for _, dl := range lens {
 			for placement := 0; placement < 2; placement++ {
 				if placement == 1 && (dl > cs.arena.Cap() || (len(lens) > 60 && dl%7 != 0)) {
